@@ -51,8 +51,9 @@ fn real_main(cmd: String, args: Vec<String>) -> i32 {
                     if let Some(o) = out {
                         std::fs::write(&o, serde_json::to_string_pretty(&j).unwrap()).unwrap();
                     }
+                    let (used, of) = insp::MAX_USED.with(|m| m.get());
                     println!("{}", serde_json::to_string(&json!({"prop": j["prop"], "cases": j["cases"], "behaviours": j["behaviours"], "runs": j["runs"],
-                        "clean": j["clean"], "kf": j["kf"], "n_mismatch": j["n_mismatch"], "unsupported": j["unsupported"]})).unwrap());
+                        "clean": j["clean"], "kf": j["kf"], "n_mismatch": j["n_mismatch"], "unsupported": j["unsupported"], "max_steps_used": [used, of]})).unwrap());
                     if st.n_mismatch > 0 {
                         1
                     } else {
